@@ -72,6 +72,26 @@ class IterBench:
             cons = "s" if task._fut_waiter is it._future else "o"
         return slot + deferred + cons
 
+    def feed(self, obs, it, op):
+        if op[0] == "P":
+            m = self.item(int(op[1:]))
+            if not obs.cancelled:
+                obs.callback(m)
+            else:
+                # a feeder ClientObservation rules out; the future `push` replaces may hold an
+                # exception nobody fetched, which asyncio would report on stderr when it is
+                # collected: look at it first (changes nothing for the iterator)
+                f = it._future
+                if f.done() and not f.cancelled():
+                    f.exception()
+                it.push(m)
+        else:
+            e = self.exc(op[1:])
+            if not obs.cancelled:
+                obs.error(e)
+            else:
+                it.push_err(e)
+
     async def run_case(self, case, drain=3):
         """-> (canonical line | "out-of-model", drained outputs, raw outputs [(kind, object)])
         After the case's ops a consumer that keeps iterating is simulated (`drain` further
@@ -84,9 +104,12 @@ class IterBench:
                 obs.callback(self.item(int(d[3:])))
             else:
                 obs.error(self.exc(d[3:]))
-        it = obs.__aiter__()
         cur, raw = [], []
         task = None
+        try:
+            it = obs.__aiter__()
+        except Exception as e:
+            return "escaped:aiter:" + type(e).__name__, [], raw
 
         async def one_next():
             try:
@@ -110,24 +133,11 @@ class IterBench:
         groups, drained = [], []
         try:
             for op in case["ops"]:
-                if op[0] == "P":
-                    m = self.item(int(op[1:]))
-                    if not obs.cancelled:
-                        obs.callback(m)
-                    else:
-                        # a feeder ClientObservation rules out; the future `push` replaces may hold
-                        # an exception nobody fetched, which asyncio would report on stderr when it
-                        # is collected: look at it first (changes nothing for the iterator)
-                        f = it._future
-                        if f.done() and not f.cancelled():
-                            f.exception()
-                        it.push(m)
-                elif op[0] == "E":
-                    e = self.exc(op[1:])
-                    if not obs.cancelled:
-                        obs.error(e)
-                    else:
-                        it.push_err(e)
+                if op[0] in "PE":
+                    try:
+                        self.feed(obs, it, op)
+                    except Exception as e:      # raised into whoever feeds the observation
+                        cur.append("escaped:" + type(e).__name__)
                 elif op == "N":
                     if task is not None and not task.done():
                         return "out-of-model", [], raw
@@ -186,6 +196,8 @@ def oracle_iter(case, line, drained):
     -> (verdict, key)"""
     if line == "out-of-model":
         return "", None
+    if line.startswith("escaped:aiter:"):
+        return f"__aiter__ raised {line[14:]}", "iter-escaped"
     fed, err = [], None
     pre = case.get("pre", ())
     pre_items = [int(d[3:]) for d in pre if d.startswith("cb:")]
@@ -200,6 +212,10 @@ def oracle_iter(case, line, drained):
         elif op[0] == "E" and err is None:
             err = op[1:]
     outs = [o for g in line.split() if "/" in g for o in g.split("/")[0].split(",") if o != "."]
+    esc = [o for o in outs if o.startswith("escaped:")]
+    if esc and well_formed(case):
+        return f"{esc[0][8:]} raised into the feeder of the observation (callback()/error())", "iter-escaped"
+    outs = [o for o in outs if not o.startswith("escaped:")]
     outs = [o for o in outs + list(drained) if o != "cancelled"]
     items = [int(o[1:]) for o in outs if o[0] == "i"]
     # 1. a subsequence of what was fed, in order, nothing twice
